@@ -162,6 +162,25 @@ def equivariance_defects(model, cfg, probes, ops):
                         bad[gi] = (list(t), d, scale)
                         break
                     ill += 1
+        # cyclic translations along toroidal axes (multiples of the pooling factor for the UNet)
+        flags = x.is_torus
+        step = 2 ** cfg.get("num_downsamples", 1) if cfg["cls"] == "UNet" else 1
+        nl = 1
+        for si, ax in enumerate([a for a in range(x.D) if flags[a]][:2]):
+            sh = step * (1 + si)
+            roll = lambda mi: geom.MultiImage({t: jnp.roll(v, sh, axis=nl + ax) for t, v in mi.items()}, mi.D, mi.is_torus)
+            lhs = _CALL(model, roll(x))
+            rhs = roll(base)
+            gi = 1000 + ax  # pseudo group index for translations
+            for t in rhs.keys():
+                a, b = np.asarray(lhs[t]), np.asarray(rhs[t])
+                scale = max(1.0, float(np.max(np.abs(b))))
+                d = float(np.max(np.abs(a - b)))
+                if d > TOL * scale:
+                    if d > 30.0 * nf.get(t, 0.0):
+                        bad[gi] = (list(t), d, scale)
+                        break
+                    ill += 1
         per_probe.append(bad)
     persistent = set(per_probe[0])
     for b in per_probe[1:]:
@@ -235,11 +254,11 @@ def gen_plan(rng, profile: dict, seed: int) -> dict:
             nb = rng.randint(1, 2)
             opt = rng.choice(["sgd", "adam", "adamw", "adamw"])
             lr = {"sgd": rng.choice([0.05, 0.2]), "adam": rng.choice([0.02, 0.1]), "adamw": rng.choice([0.02, 0.1])}[opt]
-            epochs = rng.choice([1, 2, 3, 5, 10, 12, 20])
+            epochs = rng.choice([1, 2, 3, 5, 10, 12, 12, 20])
             crash = None
             if rng.random() < 0.45:
                 # bias crashes to land around the checkpoint written at the end of every 10th epoch
-                e = rng.choice([9, 9, 10, 11, 19]) if epochs >= 10 and rng.random() < 0.75 else rng.randint(0, max(0, epochs - 1))
+                e = rng.choice([9, 10, 10, 11, 11, 19]) if epochs >= 10 and rng.random() < 0.8 else rng.randint(0, max(0, epochs - 1))
                 crash = {"epoch": min(e, epochs - 1), "offset": rng.randint(1, 14), "seed": rng.getrandbits(24)}
             seg = {
                 "epochs": epochs, "opt": opt, "lr": lr, "wd": rng.choice([1e-2, 0.1]), "ndev": ndev, "B": B, "L": nb * B,
@@ -329,7 +348,7 @@ def _exec_train(plan, ctx):
             bump("ill_conditioned_comparisons", ill)
         if defects:
             gi, t, d, sc = defects[0]
-            viol("equivariance", {"after": where, "g": ops[gi].tolist(), "type": t, "defect": d, "scale": sc, "n_bad_g": len(defects), "history": kinds[:]}, f"{site0}/equivariance")
+            viol("equivariance", {"after": where, "g": ops[gi].tolist() if gi < 1000 else f"cyclic shift along axis {gi - 1000}", "type": t, "defect": d, "scale": sc, "n_bad_g": len(defects), "history": kinds[:]}, f"{site0}/equivariance")
         bd = bank_defect(bank0, bank_leaves(m))
         evals += 1
         if bd is not None:
